@@ -134,8 +134,9 @@ theorem parseDurations_no_error (l : List (DurJ × Int)) (h : (parseDurations l)
     obtain ⟨j, cur⟩ := a
     cases j <;> simp_all [parseDurations, durTaken]
 
-/-- … and when it does report one, the caller must look: crdt does not (`parseDurationsUnchecked`), so a
-well-formed entry after an unparsable one is dropped without an error.  Witness = finding K15c. -/
+/-- … and when it does report one, the caller must look: a caller that does not (`parseDurationsUnchecked`) lets a
+well-formed entry after an unparsable one is dropped without an error.  This was the crdt defect repaired by
+/repo commit 639679f; the kind stays in the model so that a regression is classified, and is never lossless. -/
 theorem parseDurations_unchecked_drops :
     ∃ l : List (DurJ × Int), (parseDurations l).2 = true ∧ (parseDurations l).1 ≠ l.map durTaken := by
   refine ⟨[(.bad, 60), (.ok 5, 0)], ?_⟩
@@ -220,25 +221,23 @@ def C15_full : Prop :=
   Gen.displayReplacesHidden = true ∧ Gen.managerLoadEndsWithValidate = true
 
 /-- Rows of the unchanged tree that fail `rowStrict`, with the reason.  `defect`: the code contradicts the
-property (findings K15a/K15b/K15c); `library`: the default comes from a library constructor the translator
+property (findings K11/K12); `library`: the default comes from a library constructor the translator
 cannot see, so settable-to-zero cannot be decided from the sources (the correspondence run sweeps them). -/
 def exceptions : List (String × String × String) := [
-  ("crdt", "batching.max_batch_age", "defect K15c: ParseDurations error dropped"),
-  ("crdt", "rebroadcast_interval", "defect K15c: ParseDurations error dropped"),
-  ("badger", "badger_options.truncate", "defect K15a: default true, mergo cannot write false"),
-  ("badger", "badger_options.sync_writes", "defect K15a: library default true, mergo cannot write false"),
+  ("badger", "badger_options.truncate", "defect K11: default true, mergo cannot write false"),
+  ("badger", "badger_options.sync_writes", "defect K11: library default true, mergo cannot write false"),
   ("badger", "badger_options.read_only", "library default (false) not visible"),
   ("badger", "badger_options.dir", "library default (\"\") not visible"),
   ("badger", "badger_options.value_dir", "library default (\"\") not visible"),
-  ("ipfsproxy", "node_https", "defect K15a: Default() does not reset NodeHTTPS, SetIfNotDefault cannot write false"),
-  ("cluster", "peername", "defect K15b: default is the host name, \"\" falls back to it"),
-  ("raft", "datastore_namespace", "defect K15b: \"\" falls back to \"/r\""),
-  ("crdt", "cluster_name", "defect K15b: \"\" falls back to the default instead of being refused"),
-  ("crdt", "peerset_metric", "defect K15b: \"\" falls back to \"ping\" instead of being refused"),
-  ("crdt", "datastore_namespace", "defect K15b: \"\" falls back to \"/c\""),
-  ("ipfsproxy", "extract_headers_path", "defect K15b: \"\" falls back to the default instead of being refused"),
-  ("badger", "folder", "defect K15b: \"\" falls back to \"badger\" instead of being refused"),
-  ("leveldb", "folder", "defect K15b: \"\" falls back to \"leveldb\" instead of being refused") ]
+  ("ipfsproxy", "node_https", "defect K11: Default() does not reset NodeHTTPS, SetIfNotDefault cannot write false"),
+  ("cluster", "peername", "defect K12: default is the host name, \"\" falls back to it"),
+  ("raft", "datastore_namespace", "defect K12: \"\" falls back to \"/r\""),
+  ("crdt", "cluster_name", "defect K12: \"\" falls back to the default instead of being refused"),
+  ("crdt", "peerset_metric", "defect K12: \"\" falls back to \"ping\" instead of being refused"),
+  ("crdt", "datastore_namespace", "defect K12: \"\" falls back to \"/c\""),
+  ("ipfsproxy", "extract_headers_path", "defect K12: \"\" falls back to the default instead of being refused"),
+  ("badger", "folder", "defect K12: \"\" falls back to \"badger\" instead of being refused"),
+  ("leveldb", "folder", "defect K12: \"\" falls back to \"leveldb\" instead of being refused") ]
 
 def excepted (f : Field) : Bool := exceptions.any fun (s, p, _) => s == f.sec && p == f.path
 
